@@ -64,6 +64,7 @@ func init() {
 }
 
 func runC05(c *Ctx) {
+	defer c.tokenBuffer("R05.12", "svg")
 	pk := c.pkg("R05", "svg")
 	if pk == nil {
 		return
